@@ -74,7 +74,8 @@ def run(rep, tier, seed):
                 'alternatives nested once; values of every JSON type or absent) is evaluated on the real matcher directly '
                 'and through iter_recording_ids of the in-memory, file-based and S3(fake bucket) cassettes; oracle = res of '
                 'the specification (Python equality / ordering rules transcribed); plus seeded pairs beyond the universe '
-                '(random strings and numbers with the same shapes). non-trivial = pair whose filter is not a plain atom; '
+                '(random strings and numbers with the same shapes), and lists of alternatives grown / shrunk in place between two '
+                'lookups. non-trivial = pair whose filter is not a plain atom; '
                 'distinct = pair')
     rep.assumptions = ['fnmatch on POSIX (case-sensitive)', 'S3 filters JSON-decoded metadata; the universe contains JSON types only']
     g, r = dump_states(rep, 'MetaFilter', 'MetaFilter.cfg', name='MetaFilter (all pairs, 11 documentation lemmas)')
@@ -100,8 +101,44 @@ def run(rep, tier, seed):
     rep.sample({'filter': repr(py_filter(pairs[0]['f'])), 'value': repr(pairs[0]['v']), 'res': pairs[0]['res']})
     rep.sample({'filter': repr(py_filter(pairs[len(pairs) // 2]['f'])), 'value': repr(pairs[len(pairs) // 2]['v']),
                 'res': pairs[len(pairs) // 2]['res']})
+    edited_filters(rep, pairs)
     through_cassettes(rep, pairs)
     beyond_universe(rep, seed, 4000 if tier == 'quick' else 200000)
+
+
+def edited_filters(rep, pairs):
+    """What a filter means is a function of the filter and the value *now*: a list of alternatives that the caller grows
+    or shrinks in place between two lookups is matched as it stands at each lookup (oracle: res of the specification for
+    the one-alternative list, the two-alternative list, and the remaining alternative)."""
+    table = {}
+    for st in pairs:
+        if st['f']['k'] == 'list':
+            table[(repr(list(st['f']['alts'])), repr(st['v']))] = bool(st['res'])
+    n = 0
+    for st in pairs:
+        f, v = st['f'], st['v']
+        if f['k'] != 'list' or len(f['alts']) != 2:
+            continue
+        a1, a2 = list(f['alts'])
+        steps = [('[a1]', [a1]), ('[a1, a2] (a2 appended in place)', [a1, a2]), ('[a2] (a1 removed in place)', [a2])]
+        if any((repr(alts), repr(v)) not in table for _n, alts in steps):
+            continue
+        live = [py_filter(a1)]
+        for i, (label, alts) in enumerate(steps):
+            if i == 1:
+                live.append(py_filter(a2))
+            elif i == 2:
+                del live[0]
+            got = _real_match(live, v, 0)
+            exp = table[(repr(alts), repr(v))]
+            rep.evaluations += 1
+            n += 1
+            if got is not exp:
+                rep.violation({'summary': 'matcher(%r, %s) = %r after the list was changed in place to %s, documented: %r'
+                                          % (live, 'absent' if v['ty'] == 'absent' else repr(py_value(v)), got, label, exp),
+                               'signature': None}, replay={'kind': 'pair', 'f': repr(live), 'v': repr(v), 'variant': 0})
+                break
+    rep.extra['filters_edited_in_place'] = {'lookups': n}
 
 
 def through_cassettes(rep, pairs):
